@@ -72,12 +72,14 @@ type sMeas struct {
 }
 
 type sResult struct { // one benchmark line
+	exp  int // index of the experiment it belongs to
 	cfg  [][2]string
 	name string
 	vals []benchfmt.Value
 }
 
 type sSet struct {
+	hasBaseOnly bool
 	sparseKeys bool // numerator results carry no denominator hash, baseline results no numerator hash/stamp
 	points  []sPoint
 	exps    []time.Time // experiment instants (distinct)
@@ -208,6 +210,7 @@ func sGenSet(T *sim.Tape, allowNoDen bool) *sSet {
 	baseOnly := -1
 	if nb >= 2 && T.Intn(6, "baseline-only-benchmark") == 0 {
 		baseOnly = 1 + T.Intn(nb-1, "which-baseline-only")
+		s.hasBaseOnly = true
 	}
 	for e := range s.exps {
 	  for _, tab := range s.expTab[e] {
@@ -276,7 +279,7 @@ func sGenSet(T *sim.Tape, allowNoDen bool) *sSet {
 					prevNum, prevDen = num, den
 				}
 				for l := 0; l < len(num[0]); l++ {
-					res := sResult{name: bench, cfg: s.cfgFor(e, pi, tab, "Tip", T)}
+					res := sResult{exp: e, name: bench, cfg: s.cfgFor(e, pi, tab, "Tip", T)}
 					for u := 0; u < nu; u++ {
 						res.vals = append(res.vals, benchfmt.Value{Value: num[u][l], Unit: sUnits[u]})
 						key := fmt.Sprintf("%s|%v|%s|%d|%d", sUnits[u], tab, bench, pi, e)
@@ -286,7 +289,7 @@ func sGenSet(T *sim.Tape, allowNoDen bool) *sSet {
 					if T.Intn(12, "foreign-role") == 0 {
 						// the same line once more from a toolchain that is neither numerator nor denominator (or spelled
 						// differently): it belongs to no sample
-						twin := sResult{name: bench, cfg: s.cfgFor(e, pi, tab, []string{"tip", "TIP", "base", "BASE", "Other", "Tip2"}[T.Intn(6, "foreign-role-v")], T)}
+						twin := sResult{exp: e, name: bench, cfg: s.cfgFor(e, pi, tab, []string{"tip", "TIP", "base", "BASE", "Other", "Tip2"}[T.Intn(6, "foreign-role-v")], T)}
 						for u := 0; u < nu; u++ {
 							twin.vals = append(twin.vals, benchfmt.Value{Value: num[u][l] * 4096, Unit: sUnits[u]})
 						}
@@ -302,7 +305,7 @@ func sGenSet(T *sim.Tape, allowNoDen bool) *sSet {
 				continue // this experiment measured no baseline for this benchmark, others at the same point may have
 			}
 			for l := 0; l < len(den[0]); l++ {
-				res := sResult{name: bench, cfg: s.cfgFor(e, pts[0], tab, "Base", T)}
+				res := sResult{exp: e, name: bench, cfg: s.cfgFor(e, pts[0], tab, "Base", T)}
 				for u := 0; u < nu; u++ {
 					res.vals = append(res.vals, benchfmt.Value{Value: den[u][l], Unit: sUnits[u]})
 					key := fmt.Sprintf("%s|%v|%s|%d", sUnits[u], tab, bench, e)
@@ -875,6 +878,84 @@ func c18Run(t *testing.T, r *sim.Run, tier string) {
 			r.Fail("series", r.Lane+"/carried-over-tables-reordered", "tables without new results were handed in as %v and came back as %v", wantOrder, gotOrder)
 		}
 		r.Hit("existing series handed back in")
+	}
+	// the -ji/-jo flow over time: the series of the earlier experiments (with their summaries) are handed back in
+	// when the results of the later experiments arrive; under REPLACE that must end where one build over
+	// everything ends, summaries included
+	everyPointCompared := !s.mixedNoDen && !s.hasBaseOnly // a point without denominator has no summary, and series handed back in consist of their summaries
+	for _, p := range s.points {
+		if p.noDen {
+			everyPointCompared = false
+		}
+	}
+	if policy == DUPE_REPLACE && everyPointCompared && len(s.exps) >= 2 && T.Intn(4, "incremental-existing") == 0 && len(refCSS) > 0 {
+		cut := 1 + T.Intn(len(s.exps)-1, "existing-cut")
+		var warns []string
+		b1, _ := NewBuilder(sOpts(withTable, &warns))
+		b2, _ := NewBuilder(sOpts(withTable, &warns))
+		n1, n2 := 0, 0
+		for _, i := range T.Perm(len(s.results), "add-order") {
+			res := s.results[i]
+			rd := benchfmt.NewReader(strings.NewReader(res.text()), "set")
+			for rd.Scan() {
+				if rr, ok := rd.Result().(*benchfmt.Result); ok {
+					if res.exp < cut {
+						b1.Add(rr)
+						n1++
+					} else {
+						b2.Add(rr)
+						n2++
+					}
+				}
+			}
+		}
+		if n1 > 0 && n2 > 0 {
+			early, err := b1.AllComparisonSeries(nil, policy)
+			if err != nil {
+				r.Fail("series", "unexpected-error", "AllComparisonSeries over the earlier experiments failed: %v", err)
+			}
+			for _, cs := range early {
+				cs.AddSummaries(conf, N)
+			}
+			merged, err := b2.AllComparisonSeries(early, policy)
+			if err != nil {
+				r.Fail("series", "unexpected-error", "AllComparisonSeries(existing) failed: %v", err)
+			}
+			fresh0, _ := sBuild(t, r, s, T.Perm(len(s.results), "add-order"), withTable, policy, false)
+			axes := func(css []*ComparisonSeries) string { // carried-over points consist of their summaries only: compare the axes, then the summaries
+				var ls []string // tables without new results come after the recomputed ones: compare as a set
+				for _, cs := range css {
+					ls = append(ls, fmt.Sprintf("%q %q %q\n", cs.Unit, cs.Benchmarks, cs.Series))
+				}
+				sort.Strings(ls)
+				return strings.Join(ls, "")
+			}
+			if a, b := axes(merged), axes(fresh0); a != b {
+				r.Fail("series", "replace/existing-plus-later-differs", "the series of experiments < %d handed back in with the results of the later ones have other tables, benchmarks or series points than one build over all results\n--- merged\n%s--- one build\n%s", cut, a, b)
+			}
+			fresh, _ := sBuild(t, r, s, T.Perm(len(s.results), "add-order"), withTable, policy, false)
+			byUnit := map[string]*ComparisonSeries{}
+			for _, cs := range merged {
+				byUnit[cs.Unit] = cs
+			}
+			for ci := range fresh {
+				mcs := byUnit[fresh[ci].Unit]
+				if mcs == nil {
+					continue
+				}
+				mcs.AddSummaries(conf, N)
+				fresh[ci].AddSummaries(conf, N)
+				for si := range fresh[ci].Series {
+					for bi := range fresh[ci].Benchmarks {
+						a, b := mcs.Summaries[si][bi], fresh[ci].Summaries[si][bi]
+						if a.Present != b.Present || (a.Present && !(sameF(a.Low, b.Low) && sameF(a.Center, b.Center) && sameF(a.High, b.High))) {
+							r.FailNonRepro("bootstrap", "stale-summary-after-merge", "summary of %q at %q after handing the earlier series back in is %+v, over one build of all results %+v", fresh[ci].Benchmarks[bi], fresh[ci].Series[si], *a, *b)
+						}
+					}
+				}
+			}
+			r.Hit("earlier series handed back in with later experiments")
+		}
 	}
 	// concurrent callers: two tasks compute summaries for two independently built copies of the series at the
 	// same time (under the seeded scheduler); each must get the sequential numbers
